@@ -2196,6 +2196,23 @@ func (sc *c10Sched) settle() string {
 			}
 		}
 		if settled {
+			// a goroutine seen waiting for the mutex while NO goroutine is parked inside syncOwner is a transient (the
+			// holder has just released and the waiter has not been woken yet): only "blocked behind a parked holder" is
+			// a stable state, keep waiting otherwise
+			nBlocked, nParked := 0, 0
+			for _, s := range states {
+				switch s {
+				case "blocked":
+					nBlocked++
+				case "pu", "pd":
+					nParked++
+				}
+			}
+			if nBlocked > 0 && nParked == 0 {
+				settled = false
+			}
+		}
+		if settled {
 			return strings.Join(states, ",")
 		}
 		if time.Now().After(deadline) {
